@@ -88,8 +88,9 @@ def add_filter(component, patterns, max_match=MAX_MATCH):
         return dict((k, none_max(da.get(k), db.get(k))) for k in set(da.keys()).union(db.keys()))
 
     def inner(comp, patterns):
-        if comp in _CACHE:
-            del _CACHE[comp]
+        # A registration can change the filters in force for any component it flows to,
+        # so every cached look-up is stale, not only the one of `comp`.
+        _CACHE.clear()
 
         if not isinstance(patterns, (six.string_types, list, set)):
             raise TypeError("Filter patterns must be of type string, list, or set.")
